@@ -266,6 +266,20 @@ impl<Hash: NewBytes + ResizableBytes + Zeroize, Salt: NewBytes + ResizableBytes 
     /// Hashes `password` with a random salt and `config`, returning
     /// the hash, salt, and config upon success.
     pub fn hash<Password: Bytes>(password: &Password, config: Config) -> Result<Self, Error> {
+        // checked before any buffer is sized after them
+        validate!(
+            CRYPTO_PWHASH_BYTES_MIN,
+            CRYPTO_PWHASH_BYTES_MAX,
+            config.hash_length,
+            "hash_length"
+        );
+        validate!(
+            CRYPTO_PWHASH_SALTBYTES_MIN,
+            CRYPTO_PWHASH_SALTBYTES_MAX,
+            config.salt_length,
+            "salt_length"
+        );
+
         let mut hash = Hash::new_bytes();
         let mut salt = Salt::new_bytes();
 
@@ -379,6 +393,14 @@ impl<Hash: NewBytes + ResizableBytes + Zeroize, Salt: Bytes + Clone + Zeroize> P
         salt: Salt,
         config: Config,
     ) -> Result<Self, Error> {
+        // checked before the buffer is sized after it
+        validate!(
+            CRYPTO_PWHASH_BYTES_MIN,
+            CRYPTO_PWHASH_BYTES_MAX,
+            config.hash_length,
+            "hash_length"
+        );
+
         let mut hash = Hash::new_bytes();
 
         hash.resize(config.hash_length, 0);
